@@ -11,7 +11,6 @@ determinant) evaluated on the ORIGINAL spec and on the read-back spec; see the f
 check_decomposition / check_transformations / check_propagate.
 """
 import math
-import re
 import traceback
 from fractions import Fraction as F
 
@@ -35,8 +34,9 @@ ASSUMPTIONS = [
     "dyadic/int inputs with dyadic component matrices: all filter arithmetic is exact in binary "
     "floating point, the resolved contours are compared EXACTLY; otherwise within 1e-9 x the "
     "font's coordinate magnitude (decompose/flatten/propagate) resp. 1e-6 x (transformations)",
-    "contours are compared as a multiset of direction-sensitive closed cycles (start point free); "
-    "draws-nothing segments and single-point contours are removed on both sides",
+    "contours are compared as a multiset of direction-sensitive closed cycles (start point free, "
+    "open contours closed); nothing is cleaned away: zero-length segments and single-point "
+    "contours must survive; whether contour ORDER was preserved is counted",
     "TransformationsFilter: the requested matrix is T(OffsetX,OffsetY) . T(0,h) . S(ScaleX%,ScaleY%)"
     " . SkewX(Slant deg) . T(0,-h), h = origin height (half heights: exact half or rounded half both "
     "accepted); the advance may be mapped as width*ScaleX or as the vector (width,height) under the "
@@ -69,11 +69,11 @@ TOL_TF = F(1, 10 ** 6)
 
 
 def n_cases(tier):
-    return 4000 if tier == "quick" else 60000
+    return 6000 if tier == "quick" else 100000
 
 
 def budget_s(tier):
-    return 120 if tier == "quick" else 900
+    return 150 if tier == "quick" else 1500
 
 
 # ----------------------------------------------------------------------------------------------
@@ -438,12 +438,7 @@ def sample_view(case):
 # helpers
 
 
-def _json_glyph(g):
-    return {"contours": g.get("contours"), "components": g.get("components"),
-            "anchors": g.get("anchors"), "width": g.get("width"), "height": g.get("height")}
-
-
-def font_scale(before):
+def font_scale(before, B):
     """Coordinate magnitude of the font: all source coordinates, component offsets, anchors and
     all resolved coordinates."""
     m = F(1)
@@ -456,7 +451,7 @@ def font_scale(before):
         for a in g["anchors"]:
             m = max(m, abs(R.fr(a["x"])), abs(R.fr(a["y"])))
         if g["components"]:
-            m = max(m, S.max_abs(S.drawing(before, n)))
+            m = max(m, S.max_abs(B.cycles(n)))
     return m
 
 
@@ -522,29 +517,31 @@ def check_decomposition(ctx, before, after, included):
     case = ctx.case
     filt = case["filter"]
     exact = case["exact"]
-    dev = TOL_DECOMP * font_scale(before)
+    B, A = S.Snap(before), S.Snap(after)
+    dev = TOL_DECOMP * font_scale(before, B)
     changed = {n for n in before
                if not (same_components(before[n]["components"], after[n]["components"])
                        and same_contours(before[n]["contours"], after[n]["contours"]))}
     for name in before:
-        ref = S.drawing(before, name)
-        got = S.drawing(after, name)
         acted = name in changed or bool(S.reaches(before, name) & changed)
-        compare_render(ctx, name, ref, got, exact, dev, "render_changed",
-                       {"filter": filt, "glyph_changed": name in changed})
         ctx.bump("glyphs_compared")
+        if not acted:
+            # neither the glyph nor anything it refers to was touched: same spec, same rendering
+            ctx.bump("glyphs_untouched")
+            continue
+        compare_render(ctx, name, B.cycles(name), A.cycles(name), exact, dev, "render_changed",
+                       {"filter": filt, "glyph_changed": name in changed})
         if acted:
             ctx.nontrivial = True
             ctx.bump("glyphs_acted")
-            if S.n_flipped(before, name):
+            if B.n_flipped(name):
                 ctx.bump("neg_det_glyphs_acted")
             if S.depth_of(before, name) >= 3:
                 ctx.bump("depth3_glyphs_acted")
-        # anchors and advance are not the filter's business: they must stay
-        if name in changed and (before[name]["anchors"] != after[name]["anchors"]
-                                or before[name]["width"] != after[name]["width"]):
-            ctx.bad("decomposition_touched_anchors_or_advance", glyph=name,
-                    before=_json_glyph(before[name]), after=_json_glyph(after[name]))
+        # anchors and advance are not these filters' business (observed only, C14 judges it)
+        if before[name]["anchors"] != after[name]["anchors"] \
+                or before[name]["width"] != after[name]["width"]:
+            ctx.bump("observed_decomposition_touched_anchors_or_advance")
     # structural promises
     for name, g in before.items():
         a = after[name]
@@ -645,13 +642,13 @@ def check_transformations(ctx, before, after, included):
     if ident:
         active = set()
         ctx.bump("tf_identity_matrix")
-    fscale = max(font_scale(before), abs(R.fr(opts["OffsetX"])), abs(R.fr(opts["OffsetY"])),
+    B, A = S.Snap(before), S.Snap(after)
+    fscale = max(font_scale(before, B), abs(R.fr(opts["OffsetX"])), abs(R.fr(opts["OffsetY"])),
                  abs(R.fr(case["ufo"]["info"]["capHeight"])))
-    before_draw = {n: S.drawing(before, n) for n in before}
     results = []
     for m in mats:
         sub = Ctx(case)
-        _check_tf_with(sub, before, after, included, active, m, before_draw, fscale)
+        _check_tf_with(sub, before, after, included, active, m, B, A, fscale)
         results.append(sub)
         if not sub.violations:
             break
@@ -664,7 +661,7 @@ def check_transformations(ctx, before, after, included):
     ctx.nontrivial = ctx.nontrivial or best.nontrivial
 
 
-def _check_tf_with(ctx, before, after, included, active, m, before_draw, fscale):
+def _check_tf_with(ctx, before, after, included, active, m, B, A, fscale):
     case = ctx.case
     opts = case["options"]
     memo = {}
@@ -673,7 +670,7 @@ def _check_tf_with(ctx, before, after, included, active, m, before_draw, fscale)
         if n in memo:
             return memo[n]
         if n in active:
-            e = S.map_cycles(m, before_draw[n])
+            e = S.map_cycles(m, B.cycles(n))
         else:
             e = own_cycles(before[n])
             for c in before[n]["components"]:
@@ -686,7 +683,7 @@ def _check_tf_with(ctx, before, after, included, active, m, before_draw, fscale)
                 and opts["ScaleY"] in SCALES_EXACT)
     for name in before:
         exp = expected(name)
-        got = S.drawing(after, name)
+        got = A.cycles(name)
         scale = max(fscale, S.max_abs(exp))
         dev = TOL_TF * scale
         touched = name in active or bool(S.reaches(before, name) & active)
@@ -706,12 +703,12 @@ def _check_tf_with(ctx, before, after, included, active, m, before_draw, fscale)
             ok = compare_render(ctx, name, exp, got, False, dev, mech,
                                 {"matrix": [float(v) for v in m], "options": opts,
                                  "included": name in included,
-                                 "before": S.show(before_draw[name])})
+                                 "before": S.show(B.cycles(name))})
         if name in active:
             ctx.bump("tf_glyphs_mapped")
             ctx.nontrivial = True
             g, a = before[name], after[name]
-            if S.n_flipped(before, name):
+            if B.n_flipped(name):
                 ctx.bump("neg_det_glyphs_acted")
             if S.depth_of(before, name) >= 3:
                 ctx.bump("depth3_glyphs_acted")
@@ -770,7 +767,7 @@ def _check_tf_with(ctx, before, after, included, active, m, before_draw, fscale)
 
 def check_propagate(ctx, before, after, included, second):
     case = ctx.case
-    dev = TOL_DECOMP * font_scale(before)
+    dev = TOL_DECOMP * font_scale(before, S.Snap(before))
     memo = {}
     for name, g in before.items():
         a = after[name]
@@ -817,10 +814,10 @@ def check_propagate(ctx, before, after, included, second):
                 ctx.bad("anchor_not_at_component_image", glyph=name, anchor=x,
                         candidates=sorted([float(cx), float(cy)] for cx, cy in cands)[:12],
                         components=g["components"])
-        # outlines are none of this filter's business
+        # outlines are none of this filter's business (observed only, C14 judges it)
         if not (same_components(g["components"], a["components"])
                 and same_contours(g["contours"], a["contours"])):
-            ctx.bad("propagate_changed_outline", glyph=name)
+            ctx.bump("observed_propagate_changed_outline")
     if second is not None:
         after2, ret2 = second
         ctx.bump("second_application_runs")
@@ -914,6 +911,19 @@ def run(case):
 
 # ----------------------------------------------------------------------------------------------
 # known findings (mechanism predicates over the case, never hashes)
+#
+# transformations_empty_glyph_advance_unscaled: TransformationsFilter.filter returns early for a
+#   glyph without contours, components and anchors, so an included 'space' keeps its advance
+#   under ScaleX (stratum tf_empty_advance).
+# transformations_nonincluded_intermediate_double_transform: included composite -> NON-included
+#   composite -> included glyph: only DIRECT bases are compensated with the inverse matrix, the
+#   included composite renders M.t.t'.M.base instead of M.t.t'.base (stratum tf_sandwich).
+# transformations_mirror_matrix_reverses_component_contours: negative ScaleX or ScaleY: own
+#   contours keep their point order but a component of a non-included base gets a matrix whose
+#   determinant changed sign, so its contours resolve reversed (stratum tf_mirror_matrix).
+# propagate_anchors_ligature_mark_empty_component_crash: ligature-named composite of marks one
+#   of which has no outline: _component_closest_to_origin subscripts bounds None
+#   (stratum pa_ligmark_empty).
 
 
 def _tf_active(case):
